@@ -18,21 +18,22 @@ import (
 
 // World is everything loaded from /repo for one run.
 type World struct {
-	Repo     string
-	Fset     *token.FileSet
-	Prog     *ssa.Program
-	Pkgs     []*packages.Package
-	SPkgs    []*ssa.Package
-	InRepo   map[*ssa.Package]bool
-	Funcs    map[string]*ssa.Function // key -> function (repo functions + referenced library functions)
-	FuncList []*ssa.Function          // repo functions, sorted by key
-	CS       *Contracts
-	TPkgs    map[string]*types.Package // package name -> types package (repo + imports)
+	Repo      string
+	Fset      *token.FileSet
+	Prog      *ssa.Program
+	Pkgs      []*packages.Package
+	SPkgs     []*ssa.Package
+	InRepo    map[*ssa.Package]bool
+	Funcs     map[string]*ssa.Function // key -> function (repo functions + referenced library functions)
+	FuncList  []*ssa.Function          // repo functions, sorted by key
+	CS        *Contracts
+	TPkgs     map[string]*types.Package // package name -> types package (repo + imports)
 	implCache map[string][]types.Type
-	allNamed []types.Type
-	LoadErrs []string
-	immut    map[string]bool
-	Mod      *ModInfo
+	allNamed  []types.Type
+	LoadErrs  []string
+	immut     map[string]bool
+	Mod       *ModInfo
+	stable    map[string]bool
 }
 
 const repoModule = "github.com/krotik/ecal"
@@ -252,6 +253,19 @@ func (w *World) immutableArr(a string) bool {
 		}
 	}
 	return w.immut[a]
+}
+
+// stableArr: field declared stable (see TypeDecl.Stable).
+func (w *World) stableArr(a string) bool {
+	if w.stable == nil {
+		w.stable = map[string]bool{}
+		for _, td := range w.CS.Types {
+			for _, f := range td.Stable {
+				w.stable["H_"+td.Pkg+"."+td.Type+"."+f] = true
+			}
+		}
+	}
+	return w.stable[a]
 }
 
 func fatalf(f string, a ...interface{}) {
